@@ -269,6 +269,10 @@ func (p *Prog) Func(key string) *FuncInfo {
 	if fi := p.Funcs[key]; fi != nil {
 		return fi
 	}
+	// a key built from the current name of a renamed type or function
+	if fi := p.Funcs[canonKey(key)]; fi != nil {
+		return fi
+	}
 	// pointer receiver <-> value receiver: a method that mutates nothing may be declared either way
 	return p.Funcs[toggleRecvStar(key)]
 }
